@@ -252,7 +252,7 @@ def sentinel(w):
 
 def run(tier, seed):
     rep = Report("C12", tier, seed, "exploration")
-    n, nq = (120, 6) if tier == "quick" else (6000, 8)
+    n, nq = (400, 6) if tier == "quick" else (6000, 8)
     rep.rule = ("tables with single / composite / no primary key built by 1-6 inserts with deletes and compactions on 4 disk "
                 "layouts (15% memory engine); per base query q: q, q ORDER BY K, q ORDER BY K LIMIT/OFFSET, q LIMIT/OFFSET; "
                 "distinct non-trivial = distinct (table history, ordered query) with more than one result row")
